@@ -272,4 +272,159 @@ theorem sublist_order {D chain : List Dir} (h : chain.Sublist D) (hn : D.Nodup) 
       rw [idx_cons_ne x a D' (fun e => hax e.symm), idx_cons_ne x b D' (fun e => hbx e.symm)] at hab
       exact List.Sublist.cons x (ih (List.nodup_cons.mp hn).2 hal hbl (by omega))
 
+/-! ### setups and parsing callbacks in one schedule -/
+
+theorem callsForBlocks_dir (d : Dir) : ∀ (bs : List Block) (i : Nat), ∀ c ∈ callsForBlocks d i bs, c.dir = d := by
+  intro bs
+  induction bs with
+  | nil => intro i c h; simp [callsForBlocks] at h
+  | cons b rest ih =>
+    intro i c h
+    unfold callsForBlocks at h
+    rw [List.mem_append] at h
+    rcases h with h | h
+    · exact (callsForKeys_dir d i _ b.keys 0 c h).1
+    · exact ih (i + 1) c h
+
+theorem execEvents_dir_mem (cbs : Dir → Bool) (blocks : List Block) : ∀ (D : List Dir),
+    ∀ e ∈ execEvents cbs D blocks, e.dir ∈ D := by
+  intro D
+  induction D with
+  | nil => intro e h; simp [execEvents] at h
+  | cons d ds ih =>
+    intro e h
+    unfold execEvents at h
+    simp only [List.mem_append, List.mem_map] at h
+    rcases h with (⟨c, hc, rfl⟩ | h) | h
+    · simp [Event.dir, callsForBlocks_dir d blocks 0 c hc]
+    · by_cases hcb : cbs d = true
+      · simp [hcb] at h; subst h; simp [Event.dir]
+      · simp [hcb] at h
+    · exact List.mem_cons_of_mem _ (ih e h)
+
+theorem pairwise_of_forall {α : Type} {R : α → α → Prop} : ∀ (l : List α), (∀ a ∈ l, ∀ b ∈ l, R a b) → l.Pairwise R
+  | [], _ => List.Pairwise.nil
+  | x :: xs, h => List.Pairwise.cons (fun b hb => h x (by simp) b (by simp [hb]))
+      (pairwise_of_forall xs (fun a ha b hb => h a (by simp [ha]) b (by simp [hb])))
+
+theorem rank_cons (d : Dir) (ds : List Dir) (e : Event) (he : e.dir ≠ d) : rank (d :: ds) e = rank ds e + 2 := by
+  cases e with
+  | setup c => simp only [rank, Event.dir] at *; rw [idx_cons_ne d c.dir ds (fun h => he h.symm)]; omega
+  | cb x => simp only [rank, Event.dir] at *; rw [idx_cons_ne d x ds (fun h => he h.symm)]; omega
+
+/-- the whole event sequence is sorted by rank -/
+theorem execEvents_sorted (cbs : Dir → Bool) (blocks : List Block) : ∀ (D : List Dir), D.Nodup →
+    (execEvents cbs D blocks).Pairwise (fun a b => rank D a ≤ rank D b) := by
+  intro D
+  induction D with
+  | nil => intro _; simp [execEvents]
+  | cons d ds ih =>
+    intro hn
+    have hd : d ∉ ds := (List.nodup_cons.mp hn).1
+    unfold execEvents
+    have hhead : ∀ e ∈ (callsForBlocks d 0 blocks).map Event.setup ++ (if cbs d then [Event.cb d] else []),
+        rank (d :: ds) e ≤ 1 ∧ (rank (d :: ds) e = 1 → e = Event.cb d) := by
+      intro e he
+      simp only [List.mem_append, List.mem_map] at he
+      rcases he with ⟨c, hc, rfl⟩ | he
+      · have := callsForBlocks_dir d blocks 0 c hc
+        simp [rank, this, idx_cons_self]
+      · by_cases hcb : cbs d = true
+        · simp [hcb] at he; subst he; simp [rank, idx_cons_self]
+        · simp [hcb] at he
+    have htail : ∀ e ∈ execEvents cbs ds blocks, rank (d :: ds) e = rank ds e + 2 := by
+      intro e he
+      apply rank_cons
+      intro h
+      exact hd (h ▸ execEvents_dir_mem cbs blocks ds e he)
+    rw [List.pairwise_append]
+    refine ⟨?_, ?_, ?_⟩
+    · rw [List.pairwise_append]
+      refine ⟨?_, ?_, ?_⟩
+      · apply pairwise_of_forall
+        intro a ha b hb
+        simp only [List.mem_map] at ha hb
+        obtain ⟨ca, hca, rfl⟩ := ha
+        obtain ⟨cb, hcb, rfl⟩ := hb
+        simp [rank, callsForBlocks_dir d blocks 0 ca hca, callsForBlocks_dir d blocks 0 cb hcb]
+      · by_cases hcb : cbs d = true <;> simp [hcb]
+      · intro a ha b hb
+        simp only [List.mem_map] at ha
+        obtain ⟨ca, hca, rfl⟩ := ha
+        by_cases hcb : cbs d = true
+        · simp [hcb] at hb; subst hb
+          simp [rank, callsForBlocks_dir d blocks 0 ca hca, idx_cons_self]
+        · simp [hcb] at hb
+    · have := ih (List.nodup_cons.mp hn).2
+      refine List.Pairwise.imp_of_mem ?_ this
+      intro a b ha hb hab
+      rw [htail a ha, htail b hb]
+      omega
+    · intro a ha b hb
+      rw [htail b hb]
+      have := (hhead a ha).1
+      omega
+
+theorem execEvents_congr (cbs : Dir → Bool) (D : List Dir) (blocks blocks' : List Block) (h : BlocksPerm blocks blocks') :
+    execEvents cbs D blocks = execEvents cbs D blocks' := by
+  induction D with
+  | nil => rfl
+  | cons d ds ih => simp only [execEvents, ih, callsForBlocks_congr d blocks blocks' 0 h]
+
+theorem mem_cb_execEvents (cbs : Dir → Bool) (blocks : List Block) (x : Dir) : ∀ (D : List Dir),
+    Event.cb x ∈ execEvents cbs D blocks ↔ x ∈ D ∧ cbs x = true := by
+  intro D
+  induction D with
+  | nil => simp [execEvents]
+  | cons d ds ih =>
+    unfold execEvents
+    simp only [List.mem_append, List.mem_map, ih, List.mem_cons]
+    constructor
+    · rintro ((⟨c, _, hc⟩ | h) | h)
+      · cases hc
+      · by_cases hcb : cbs d = true
+        · simp [hcb] at h; subst h; exact ⟨Or.inl rfl, hcb⟩
+        · simp [hcb] at h
+      · exact ⟨Or.inr h.1, h.2⟩
+    · rintro ⟨rfl | h, hc⟩
+      · exact Or.inl (Or.inr (by simp [hc]))
+      · exact Or.inr ⟨h, hc⟩
+
+theorem adjSorted_of_pairwise (D : List Dir) : ∀ (l : List Event),
+    l.Pairwise (fun a b => rank D a ≤ rank D b) → adjSorted D l = true
+  | [], _ => rfl
+  | [_], _ => rfl
+  | a :: b :: rest, h => by
+    have h1 := List.pairwise_cons.mp h
+    simp only [adjSorted, Bool.and_eq_true, decide_eq_true_eq]
+    exact ⟨h1.1 b (by simp), adjSorted_of_pairwise D (b :: rest) h1.2⟩
+
+theorem cbCount_append (a b : List Event) (d : Dir) : cbCount (a ++ b) d = cbCount a d + cbCount b d := by
+  simp [cbCount, List.filter_append]
+
+theorem cbCount_setups (cs : List Call) (d : Dir) : cbCount (cs.map Event.setup) d = 0 := by
+  simp only [cbCount, List.length_eq_zero_iff, List.filter_eq_nil_iff, List.mem_map]
+  rintro e ⟨c, _, rfl⟩
+  simp
+
+theorem cbCount_execEvents (cbs : Dir → Bool) (blocks : List Block) (x : Dir) : ∀ (D : List Dir), D.Nodup →
+    cbCount (execEvents cbs D blocks) x = if x ∈ D ∧ cbs x = true then 1 else 0 := by
+  intro D
+  induction D with
+  | nil => intro _; simp [execEvents, cbCount]
+  | cons d ds ih =>
+    intro hn
+    have hd : d ∉ ds := (List.nodup_cons.mp hn).1
+    unfold execEvents
+    rw [cbCount_append, cbCount_append, cbCount_setups, ih (List.nodup_cons.mp hn).2]
+    by_cases hx : x = d
+    · subst hx
+      by_cases hc : cbs x = true
+      · simp [hc, hd, cbCount]
+      · simp [hc, cbCount]
+    · have hne : ¬ d = x := fun h => hx h.symm
+      by_cases hc : cbs d = true
+      · simp [hc, hx, hne, cbCount]
+      · simp [hc, hx, cbCount]
+
 end Casket.Exec
